@@ -3,8 +3,8 @@ const PROCS_PER_ARCH: usize = 20;
 const ARCHS_PER_PROJECT: usize = 100;
 
 struct Placed {
-    /// file index, first line of the process in the file
-    file: usize,
+    /// file name, first line of the process in the file
+    fname: String,
     line0: u32,
     nlines: u32,
     toks: Vec<(u32, u32, u32)>,
@@ -32,7 +32,7 @@ fn write_project(dir: &Path, cases: &[&str]) -> Vec<Placed> {
         push("begin", &mut text, &mut line);
         for c in chunk {
             let lines: Vec<&str> = c.split('~').collect();
-            placed.push(Placed { file: fi, line0: line, nlines: lines.len() as u32, toks: token_table(&lines) });
+            placed.push(Placed { fname: format!("a{}.vhd", fi), line0: line, nlines: lines.len() as u32, toks: token_table(&lines) });
             for l in &lines {
                 push(l, &mut text, &mut line);
             }
@@ -85,18 +85,24 @@ fn run_impl(dir: &Path, texts: &[&str]) -> (Vec<String>, Vec<String>) {
             return (texts.iter().map(|_| format!("E:{}", e)).collect(), vec![e]);
         }
     };
-    // per file: line -> process index
-    let nfiles = (texts.len() + PROCS_PER_ARCH - 1) / PROCS_PER_ARCH;
-    let mut line_map: Vec<HashMap<u32, usize>> = vec![HashMap::new(); nfiles];
+    let (out, errs) = map_diags(&diags, &placed);
+    errors.extend(errs);
+    (out, errors)
+}
+
+/// maps the diagnostics back to the placed processes: one result line per process + the diagnostics that lie
+/// outside every process
+fn map_diags(diags: &[Diagnostic], placed: &[Placed]) -> (Vec<String>, Vec<String>) {
+    let mut errors = Vec::new();
+    let mut line_map: HashMap<(String, u32), usize> = HashMap::new();
     for (pi, p) in placed.iter().enumerate() {
         for l in 0..p.nlines {
-            line_map[p.file].insert(p.line0 + l, pi);
+            line_map.insert((p.fname.clone(), p.line0 + l), pi);
         }
     }
     let find = |d_file: &Path, line: u32| -> Option<usize> {
         let name = d_file.file_name()?.to_str()?;
-        let fi: usize = name.strip_prefix('a')?.strip_suffix(".vhd")?.parse().ok()?;
-        line_map.get(fi)?.get(&line).cloned()
+        line_map.get(&(name.to_string(), line)).cloned()
     };
     let span_of = |p: &Placed, r: &vhdl_lang::Range| -> Option<Sp> {
         let (sl, sc) = (r.start.line.checked_sub(p.line0)?, r.start.character);
@@ -105,10 +111,10 @@ fn run_impl(dir: &Path, texts: &[&str]) -> (Vec<String>, Vec<String>) {
         let b = p.toks.iter().position(|t| t.0 == el && t.2 == ec)?;
         Some((a as u32, b as u32))
     };
-    let mut missing: Vec<Vec<String>> = vec![Vec::new(); texts.len()];
-    let mut sup: Vec<Vec<Sp>> = vec![Vec::new(); texts.len()];
-    let mut errs: Vec<Vec<String>> = vec![Vec::new(); texts.len()];
-    for d in &diags {
+    let mut missing: Vec<Vec<String>> = vec![Vec::new(); placed.len()];
+    let mut sup: Vec<Vec<Sp>> = vec![Vec::new(); placed.len()];
+    let mut errs: Vec<Vec<String>> = vec![Vec::new(); placed.len()];
+    for d in diags {
         let code = format!("{:?}", d.code);
         let pi = find(d.pos.source.file_name(), d.pos.range.start.line);
         let Some(pi) = pi else {
@@ -168,7 +174,7 @@ fn run_impl(dir: &Path, texts: &[&str]) -> (Vec<String>, Vec<String>) {
         }
     }
     let mut out = Vec::new();
-    for pi in 0..texts.len() {
+    for pi in 0..placed.len() {
         let mut items = missing[pi].clone();
         sup[pi].sort();
         items.extend(sup[pi].iter().map(|s| format!("S{}", sp_s(*s))));
@@ -524,6 +530,25 @@ fn main() {
     let seed: u64 = args[2].parse().unwrap_or(1);
     let n: usize = args[3].parse().unwrap_or(0);
     let workdir = Path::new(&args[4]);
+    // incremental stage (linter cache): histories instead of single processes; <cases_out> is the base name of the outputs
+    if mode == "hist" || mode == "histcorpus" || mode.starts_with("histfile:") {
+        let hists: Vec<Hist> = if mode == "hist" {
+            let mut rng = Rng::new(seed.wrapping_mul(7919).wrapping_add(20));
+            (0..n).map(|i| gen_hist(&mut rng, format!("h{}.{}", seed, i))).collect()
+        } else if mode == "histcorpus" {
+            corpus_hists()
+        } else {
+            let path = mode.strip_prefix("histfile:").unwrap();
+            std::fs::read_to_string(path)
+                .unwrap()
+                .lines()
+                .filter(|l| !l.trim().is_empty() && !l.starts_with('#'))
+                .map(|l| hist_of_json(&serde_json::from_str(l).expect("history json")))
+                .collect()
+        };
+        hist_main(hists, workdir, &args[5]);
+        return;
+    }
     let mut lines: Vec<String> = Vec::new();
     let mut coq: Vec<String> = Vec::new();
     if let Some(path) = mode.strip_prefix("file:") {
